@@ -409,8 +409,63 @@ func resubmit(r *vh.Run, rng *vh.RNG, name string, v2 bool) {
 	w.Finish(true, "resubmit", fmt.Sprintf("resubmit-v2:%v", v2))
 }
 
+// nearFull: the pool weighs just below the eviction threshold; a set that is valid on the tip, whose
+// heavy first member would cross the threshold and whose last member double-spends a pooled input,
+// is rejected.  Nothing of it may stay behind - not in the slices and not in the weight counter:
+// the next query must report the pool as it was (it is not full).
+func nearFull(r *vh.Run, rng *vh.RNG, name string, v2 bool) {
+	w := poolrig.NewWorld(r, rng, name, chainx.PoolNet(rng, 1, 1000))
+	g := &poolrig.Gen{W: w, Rng: rng}
+	g.Track = poolrig.NewTracker(w)
+	tip := 0
+	for i := 0; i < 14; i++ {
+		tip = w.GrowRandom(tip, 0)
+	}
+	w.Refresh()
+	cs := w.Node.CM.TipState()
+	free := w.FreeCoins()
+	if len(free) < 13 {
+		w.Finish(false, "near-full-skipped")
+		return
+	}
+	limit := 10 * cs.MaxBlockWeight()
+	total := uint64(0)
+	k := 0
+	for ; k < 10; k++ {
+		size := 1_880_000 + rng.Intn(40_000)
+		fee := types.Siacoins(uint32(2 + k))
+		if v2 && k%2 == 0 {
+			t := w.SpendV2(cs, free[k:k+1], 1, fee, size)
+			total += cs.V2TransactionWeight(t)
+			g.AddV2(w.TipID(), []types.V2Transaction{t}, nil, "fresh", -1, false)
+		} else {
+			t := w.SpendV1(cs, free[k:k+1], 1, fee, size)
+			total += cs.TransactionWeight(t)
+			g.AddV1([]types.Transaction{t}, nil, "fresh", -1, false)
+		}
+	}
+	if total >= limit || total+1_500_000 < limit {
+		panic(fmt.Sprintf("near-full generator: pool weight %d", total))
+	}
+	// the rejected set: heavy (crosses the threshold), then a double spend of a pooled input
+	victim := free[0]
+	if v2 {
+		heavy := w.SpendV2(cs, free[k:k+1], 1, types.Siacoins(1), 1_500_000)
+		dbl := w.SpendV2(cs, []poolrig.Coin{victim}, 2, poolrig.Fee(9), 0)
+		g.AddV2(w.TipID(), []types.V2Transaction{heavy, dbl}, nil, "pool-conflict", 1, false)
+	} else {
+		heavy := w.SpendV1(cs, free[k:k+1], 1, types.Siacoins(1), 1_500_000)
+		dbl := w.SpendV1(cs, []poolrig.Coin{victim}, 2, poolrig.Fee(9), 0)
+		g.AddV1([]types.Transaction{heavy, dbl}, nil, "pool-conflict", 1, false)
+	}
+	g.Lookups(false)
+	w.Refresh()
+	g.Track.Check()
+	w.Finish(true, "near-full", fmt.Sprintf("near-full-v2:%v", v2))
+}
+
 func Run(r *vh.Run) {
-	r.Rule = "four case families. history: one real chain.Manager on a growing fork tree driven by 50-90 steps mixing the C14 submission classes (fresh, chained/ephemeral, known, conflicting at k, invalid at k, stale/unknown basis) with blocks confirming pool prefixes, fork branches that overtake the tip (reorg depth 1-3), parent/child sets followed by an unrelated block, and blocks assembled by coreutils.MineBlock; non-trivial = at least one reorg and one accepted set. resubmit: a 1.7-1.9M-weight pooled transaction (and its child) resubmitted 12 times between two blocks inside sets that also carry a new small transaction (the skipped members must not count towards the pool weight: 12 x 1.8M would reach the eviction threshold), v2 / v1. heavy-parent: a pool whose first non-fitting transaction (1.1-1.4M weight behind another one) is the parent of later small ones, v2 / v1 / mixed, then MineBlock. exact-weight: a pool prefix weighing MaxBlockWeight-d for d in {0,1,5,11,12,13,500}, v1 or v2, with or without v2 block data, then MineBlock twice. full-pool: 14 transactions of 1.5-1.9M weight with distinct fee rates (eviction at 10 x MaxBlockWeight), then MineBlock; distinct = distinct op lists"
+	r.Rule = "four case families. history: one real chain.Manager on a growing fork tree driven by 50-90 steps mixing the C14 submission classes (fresh, chained/ephemeral, known, conflicting at k, invalid at k, stale/unknown basis) with blocks confirming pool prefixes, fork branches that overtake the tip (reorg depth 1-3), parent/child sets followed by an unrelated block, and blocks assembled by coreutils.MineBlock; non-trivial = at least one reorg and one accepted set. near-full: ten 1.9M-weight transactions (just below the eviction threshold), then a rejected set whose heavy first member would cross it and whose last member double-spends a pooled input; the next query must report the same pool. resubmit: a 1.7-1.9M-weight pooled transaction (and its child) resubmitted 12 times between two blocks inside sets that also carry a new small transaction (the skipped members must not count towards the pool weight: 12 x 1.8M would reach the eviction threshold), v2 / v1. heavy-parent: a pool whose first non-fitting transaction (1.1-1.4M weight behind another one) is the parent of later small ones, v2 / v1 / mixed, then MineBlock. exact-weight: a pool prefix weighing MaxBlockWeight-d for d in {0,1,5,11,12,13,500}, v1 or v2, with or without v2 block data, then MineBlock twice. full-pool: 14 transactions of 1.5-1.9M weight with distinct fee rates (eviction at 10 x MaxBlockWeight), then MineBlock; distinct = distinct op lists"
 	rng := vh.NewRNG(r.Seed).Fork()
 	n := r.Pick(60, 1200)
 	for i := 0; i < n; i++ {
@@ -420,6 +475,9 @@ func Run(r *vh.Run) {
 	for i, d := range ds {
 		exactWeight(r, rng.Fork(), fmt.Sprintf("w%d-v2", i), d, true, rng.Intn(3))
 		exactWeight(r, rng.Fork(), fmt.Sprintf("w%d-v1", i), d, false, rng.Intn(3))
+	}
+	for i := 0; i < r.Pick(2, 6); i++ {
+		nearFull(r, rng.Fork(), fmt.Sprintf("n%d", i), i%2 == 0)
 	}
 	for i := 0; i < r.Pick(2, 6); i++ {
 		resubmit(r, rng.Fork(), fmt.Sprintf("r%d", i), i%2 == 0)
